@@ -16,7 +16,7 @@ BUDGET = {"quick": (4, 400), "thorough": (16, 4000)}
 TECHNIQUE = "property-based differential + metamorphic testing (Hypothesis): make_histograms vs independently built trees, whole vs chunked frames"
 RULE = (
     "Generated: a pandas DataFrame of 1..40 rows with float (incl. NaN; +-inf only where the binning is not derived "
-    "from quantiles), integer, boolean and timestamp (incl. NaT) columns; 1..4 features of 1..3 dimensions; binning in "
+    "from quantiles), integer, boolean and timestamp (incl. NaT, the epoch and dates before 1970) columns; 1..4 features of 1..3 dimensions; binning in "
     "{auto, unit} or explicit bin_specs of every supported kind (binWidth/origin, num/low/high, edges, centers, "
     "thresholds, max, min, sum, average, deviate, bag, fraction, cut); with and without time_axis; a partition of the "
     "rows into 1..5 non-empty chunks; in a third of the cases a frame with the same column names but other column "
@@ -36,7 +36,7 @@ ASSUMPTIONS = [
 ]
 
 FLOATS = (0.0, 0.1, 0.5, 1.0, 1.5, 2.5, -1.0, -0.3, 3.0, 7.25, 100.0, float("nan"), float("nan"))
-DATES = ("2020-01-01", "2020-01-20", "2020-02-01", "2020-03-15", "2021-01-01", "2019-12-31", None)
+DATES = ("2020-01-01", "2020-01-20", "2020-02-01", "2020-03-15", "2021-01-01", "2019-12-31", "1969-12-31", "1955-03-01", "1970-01-01", None)
 NUM_SPECS = ("binwidth", "numlowhigh", "edges", "centers", "thresholds", "max", "min", "sum", "average", "deviate", "bag", "fraction", "cut")
 
 
